@@ -67,12 +67,32 @@ def showReadVec (n : Nat) (bs : List Buf) : String :=
 
 def allWf (bs : List Buf) : Bool := bs.all fun b => decide b.wf
 
-/-- file content behind a handle for a read: `Except errno bytes` -/
-def readable (s : St) (h : Handle) : Except Nat Bytes :=
+def two63 : Nat := 2 ^ 63
+def minusOne : Nat := 2 ^ 64 - 1
+
+/-- what a positional read of `total` offered bytes (`nIov` ranges, `vectored`) at `pos` sees:
+`Except errno (file bytes, effective position, whether the handle position advances)`.
+Kernel rules reproduced: `EBADF` without read access, `EISDIR` on a directory (a vectored read offering
+0 bytes returns 0 instead), `EINVAL` for a negative `loff_t` or `pos + total` beyond it.
+Driver differences reproduced as the code has them (findings C08b, C08c): io_uring completes a single
+0-byte read on a directory with 0, and takes offset `u64::MAX` (-1) for "use and advance the file position". -/
+def readView (d : Driver) (s : St) (h : Handle) (pos total : Nat) (vectored : Bool) :
+    Except Nat (Bytes × Nat × Bool) :=
   if !h.r then .error EBADF else
   match h.ino with
-  | none => .error EISDIR
-  | some i => .ok (s.content i)
+  | none =>
+    if total = 0 ∧ (vectored ∨ d = .iour) then .ok ([], 0, false) else .error EISDIR
+  | some i =>
+    if pos = minusOne ∧ d = .iour then .ok (s.content i, h.pos, true)
+    else if pos ≥ two63 then .error EINVAL
+    else if pos + total > two63 - 1 then .error EINVAL
+    else .ok (s.content i, pos, false)
+
+def advancePos (s : St) (hid : Nat) (h : Handle) (adv : Bool) (n : Nat) : St :=
+  if adv then { s with handles := insert s.handles hid { h with pos := h.pos + n } } else s
+
+/-- write positions/lengths beyond this are not executed by the harness (sparse giant files, `EFBIG`/`SIGXFSZ`) -/
+def writeLimit : Nat := 2 ^ 24
 
 def writable (h : Handle) : Except Nat Nat :=
   if !h.w then .error EBADF else
@@ -112,9 +132,9 @@ def stepD (d : Driver) (s : St) (w : List String) : St × String :=
       | none => (s, "nohandle")
       | some hd =>
         if !decide b.wf then (s, "panic") else
-        match readable s hd with
+        match readView d s hd pos (b.offered k).2 false with
         | .error e => (s, s!"err {e}")
-        | .ok f => let (n, b') := readOp k b f pos; (s, showRead n b')
+        | .ok (f, p, adv) => let (n, b') := readOp k b f p; (advancePos s h hd adv n, showRead n b')
     | _, _, _, _ => (s, "bad-op")
   | ["readv", h, pos, bufs] =>
     match h.toNat?, pos.toNat?, allSome ((listOf bufs).map parseRBuf), kindOf "ReadVectoredAt" d with
@@ -123,9 +143,9 @@ def stepD (d : Driver) (s : St) (w : List String) : St × String :=
       | none => (s, "nohandle")
       | some hd =>
         if !allWf bs then (s, "panic") else
-        match readable s hd with
+        match readView d s hd pos (offeredLen k bs) true with
         | .error e => (s, s!"err {e}")
-        | .ok f => let (n, bs') := readVecOp k bs f pos; (s, showReadVec n bs')
+        | .ok (f, p, adv) => let (n, bs') := readVecOp k bs f p; (advancePos s h hd adv n, showReadVec n bs')
     | _, _, _, _ => (s, "bad-op")
   | ["writeat", h, pos, buf] =>
     match h.toNat?, pos.toNat?, parseWBuf buf, kindOf "WriteAt" d with
@@ -134,6 +154,7 @@ def stepD (d : Driver) (s : St) (w : List String) : St × String :=
       | none => (s, "nohandle")
       | some hd =>
         if !decide b.wf then (s, "panic") else
+        if pos > writeLimit then (s, "unsupported") else
         match writable hd with
         | .error e => (s, s!"err {e}")
         | .ok i =>
@@ -147,6 +168,7 @@ def stepD (d : Driver) (s : St) (w : List String) : St × String :=
       | none => (s, "nohandle")
       | some hd =>
         if !allWf bs then (s, "panic") else
+        if pos > writeLimit then (s, "unsupported") else
         match writable hd with
         | .error e => (s, s!"err {e}")
         | .ok i =>
@@ -159,6 +181,7 @@ def stepD (d : Driver) (s : St) (w : List String) : St × String :=
       match lookup s.handles h with
       | none => (s, "nohandle")
       | some hd =>
+        if n > writeLimit then (s, "unsupported") else
         match hd.w, hd.ino with
         | true, some i => (s.setContent i (ftruncate (s.content i) n), "ok")
         | _, _ => (s, s!"err {EINVAL}")
@@ -224,6 +247,7 @@ def stepD (d : Driver) (s : St) (w : List String) : St × String :=
         if !decide b.wf then (s, "panic") else
         let data := b.offeredBytes k
         if pp.buf.length + data.length > pipeLimit then (s, "full") else
+        if data.isEmpty then (s, "ok 0") else
         if !pp.rOpen then (s, s!"err {EPIPE}") else
         ({ s with pipes := insert s.pipes p { pp with buf := pp.buf ++ data } }, s!"ok {data.length}")
     | _, _, _ => (s, "bad-op")
@@ -237,6 +261,7 @@ def stepD (d : Driver) (s : St) (w : List String) : St × String :=
         if !allWf bs then (s, "panic") else
         let data := offeredBytesVec k bs
         if pp.buf.length + data.length > pipeLimit then (s, "full") else
+        if data.isEmpty then (s, "ok 0") else
         if !pp.rOpen then (s, s!"err {EPIPE}") else
         ({ s with pipes := insert s.pipes p { pp with buf := pp.buf ++ data } }, s!"ok {data.length}")
     | _, _, _ => (s, "bad-op")
@@ -286,9 +311,9 @@ def stepD (d : Driver) (s : St) (w : List String) : St × String :=
         match d with
         | .poll => (s, s!"err {EPERM}")
         | .iour =>
-          match readable s hd with
+          match readView d s hd 0 (b.offered k).2 false with
           | .error e => (s, s!"err {e}")
-          | .ok f => let (n, b') := readOp k b f 0; (s, showRead n b')
+          | .ok (f, _, _) => let (n, b') := readOp k b f 0; (s, showRead n b')
     | _, _, _ => (s, "bad-op")
   | ["fseqwrite", h, buf] =>
     match h.toNat?, parseWBuf buf, kindOf "Write" d with
